@@ -1,9 +1,14 @@
 (* extraction of the executable C03 model.  Z / positive are mapped to Zarith big integers (ExtrOcamlZBigInt): the
    aggregate of up to 100 rows of doubles has numerators of thousands of bits. *)
-From Coq Require Import List ZArith QArith Extraction ExtrOcamlBasic ExtrOcamlZBigInt.
+From Coq Require Import List ZArith QArith Qcanon Extraction ExtrOcamlBasic ExtrOcamlZBigInt.
+From LN Require C01Q_Defs.
 From LN Require Import C03_Defs.
 From LNGen Require Import Src_c03.
 Extraction Language OCaml.
+(* the n-D ellipsoid step runs over the canonical rationals Qc (Qred after every operation): Z.ggcd is mapped to
+   Zarith's gcd with the specification of Z.ggcd, exactly as in Extract_C01Q.v (trusted base) *)
+Extract Constant Z.ggcd => "(fun a b -> let g = Big_int_Z.gcd_big_int a b in
+  if Big_int_Z.sign_big_int g = 0 then (g, (g, g)) else (g, (Big_int_Z.div_big_int a g, Big_int_Z.div_big_int b g)))".
 Extraction "extracted/c03_model.ml" dot vsub vadd vscale norm2 qsum smeared_e smeared_s del_inactive pick aggregate
   del_largest recenter null_cut append init solve2 step run econv sconv cs_converged proximal delta
   done_status rqb_done fpba_done ell1_gHg ell1_next ell1_stop0 ell1_conv ell1_loop removed_count nth_post
@@ -12,3 +17,7 @@ Extraction "extracted/c03_model.ml" dot vsub vadd vscale norm2 qsum smeared_e sm
   src_c03_rqb_converged src_c03_fpba_iter_ok src_c03_fpba_converged src_c03_ell_1d src_c03_done_step_ok
   src_c03_done_stop src_c03_done_status
   Qred Qplus Qminus Qmult Qdiv Qopp Qle_bool Qeq_bool inject_Z.
+(* the n-D deep-cut step goes to a module of its own: its vectors / matrices are those of C01Q_Defs, whose names (dot,
+   vsub, ...) would otherwise be renamed against the ones above *)
+Extraction "extracted/c03e_model.ml" en_gHg en_alpha en_x en_H en_delta en_k en_P en_best en_step en_run en_H0 en_P0
+  en_form en_lt en_step_qc en_form_qc en_P_qc C01Q_Defs.QcO Q2Qc Qred.
